@@ -13,7 +13,7 @@ DECIDED = [
     "terminal-case prefix (early returns) of the same functions",
     "product_with_optional_rec cases (n.var < var, == var, > var) in both implementations",
 ]
-NOT_DECIDED = ["count / membership / iteration", "remapping between tables (remap_nodes)", "cache key correctness beyond commutativity normalisation"]
+NOT_DECIDED = ["iteration order (see C07)", "remapping between tables (remap_nodes)", "cache key correctness beyond commutativity normalisation"]
 
 REF = "varpulis_zdd::refs::ZddRef"
 
@@ -447,7 +447,138 @@ def analyse_product(ctx, path):
             ctx.sample({"fn": path, "case": cname, "term": got})
 
 
+COUNT_FNS = ["varpulis_zdd::arena::ZddArena::count_ref", "varpulis_zdd::arena::ZddArena::count_ref_uncached", "varpulis_zdd::zdd::Zdd::count_rec"]
+CONTAINS_FNS = ["varpulis_zdd::arena::ZddArena::contains_sorted", "varpulis_zdd::zdd::Zdd::contains_sorted"]
+
+
+def analyse_count(ctx, path):
+    """|Empty| = 0, |Base| = 1, |node(v, lo, hi)| = |lo| + |hi| (sum of two recursive calls, one on each child)"""
+    from vpr import hirq as H
+    h = ctx.need_hir(path, rule="shape-count")
+    name = path.rsplit("::", 2)[-2] + "::" + path.rsplit("::", 1)[1]
+    ms = H.matches_on(h["body"], lambda t: t.endswith("refs::ZddRef"))
+    if not ms:
+        ctx.anchor_lost("shape-count", "%s: no match over ZddRef" % name)
+        return
+    got = {}
+    node_arm = None
+    for head, pat, arm in H.arm_rows(ms[0]):
+        if isinstance(head, str) and head.startswith(REF + "::"):
+            v = head.rsplit("::", 1)[1]
+            if v in ("Empty", "Base"):
+                got[v] = H.show(H.strip(arm["body"]))
+            else:
+                node_arm = arm
+    for v, want in (("Empty", "0"), ("Base", "1")):
+        if got.get(v) == want:
+            ctx.ok("shape-count", "%s:%s" % (name, v), "= %s" % want)
+        else:
+            ctx.violation("shape-count", "%s:%s" % (name, v), "%s counts the terminal %s as `%s`; the family %s has %s member(s)" % (name, v, got.get(v), "{}" if v == "Empty" else "{{}}", want))
+    if node_arm is None:
+        ctx.anchor_lost("shape-count", "%s: no Node arm" % name)
+        return
+    self_name = path.rsplit("::", 1)[1]
+    sums = []
+    for x in H.walk(node_arm["body"]):
+        if x.get("k") == "bin" and x["op"] == "Add":
+            def child(e):
+                e = H.strip(e)
+                if e.get("k") in ("mcall", "call") and (e.get("method") == self_name or str(e.get("callee", "")).endswith("::" + self_name)):
+                    fs = {y["name"] for a in e["args"] for y in H.walk(a) if y.get("k") == "field" and y["name"] in ("lo", "hi")}
+                    return fs
+                return None
+            l, r = child(x["l"]), child(x["r"])
+            if l is not None and r is not None:
+                sums.append((l, r))
+    if any(l | r == {"lo", "hi"} and l != r for l, r in sums):
+        ctx.ok("shape-count", "%s:Node" % name, "count(lo) + count(hi)", site=node_arm["sp"])
+    else:
+        ctx.violation("shape-count", "%s:Node" % name, "%s does not compute |node| as count(lo) + count(hi) (found %s)" % (name, sums), site=node_arm["sp"])
+
+
+def analyse_contains(ctx, path):
+    """membership walk: Empty -> false; Base -> all query elements consumed; node(v): v == next element -> hi and advance;
+    v > next element -> false (the element was zero-suppressed away); otherwise -> lo"""
+    from vpr import hirq as H
+    h = ctx.need_hir(path, rule="shape-contains")
+    name = path.rsplit("::", 2)[-2] + "::" + path.rsplit("::", 1)[1]
+    ms = H.matches_on(h["body"], lambda t: t.endswith("refs::ZddRef"))
+    if not ms:
+        ctx.anchor_lost("shape-contains", "%s: no match over ZddRef" % name)
+        return
+    arms = {}
+    for head, pat, arm in H.arm_rows(ms[0]):
+        if isinstance(head, str) and head.startswith(REF + "::"):
+            arms[head.rsplit("::", 1)[1]] = arm
+    def ret_of(arm):
+        r = [x for x in H.walk(arm["body"]) if x.get("k") == "ret"]
+        return H.strip(r[0]["e"]) if r and r[0].get("e") is not None else H.strip(arm["body"])
+    e = ret_of(arms["Empty"]) if "Empty" in arms else None
+    if e is not None and H.show(e) == "false":
+        ctx.ok("shape-contains", name + ":Empty", "false")
+    else:
+        ctx.violation("shape-contains", name + ":Empty", "%s: the empty family must contain nothing (returns `%s`)" % (name, H.show(e) if e else None))
+    bse = ret_of(arms["Base"]) if "Base" in arms else None
+    if bse is not None and bse.get("k") == "bin" and bse["op"] == "Eq" and "len()" in H.show(bse):
+        ctx.ok("shape-contains", name + ":Base", H.show(bse))
+    else:
+        ctx.violation("shape-contains", name + ":Base", "%s: at the Base terminal the answer must be `all query elements consumed` (index == len), found `%s`" % (name, H.show(bse) if bse else None))
+    nd = arms.get("Node")
+    if nd is None:
+        ctx.anchor_lost("shape-contains", "%s: no Node arm" % name)
+        return
+    # the if / else-if / else chain
+    chain = []
+    ifs = [x for x in H.walk(nd["body"]) if x.get("k") == "if"]
+    cur = ifs[0] if ifs else None
+    while cur is not None:
+        chain.append((cur["cond"], cur["then"]))
+        els = H.strip(cur["else"]) if cur.get("else") is not None else None
+        if els is not None and els.get("k") == "if":
+            cur = els
+        else:
+            chain.append((None, cur.get("else")))
+            cur = None
+    def effect(blk):
+        if blk is None:
+            return "?"
+        for x in H.walk(blk):
+            if x.get("k") == "ret":
+                return "return " + H.show(x["e"]) if x.get("e") is not None else "return"
+        for x in H.walk(blk):
+            if x.get("k") == "assign" and x["op"] is None:
+                fs = [y["name"] for y in H.walk(x["r"]) if y.get("k") == "field" and y["name"] in ("lo", "hi")]
+                if fs:
+                    return "go " + fs[0]
+        return "?"
+    def rel(c):
+        if c is None:
+            return "else"
+        for x in H.walk(c):
+            if x.get("k") == "bin" and x["op"] in ("Eq", "Gt", "Lt", "Ge", "Le", "Ne") and any(y.get("k") == "field" and y["name"] == "var" for y in H.walk(x)):
+                var_left = any(y.get("k") == "field" and y["name"] == "var" for y in H.walk(x["l"]))
+                op = x["op"] if var_left else {"Gt": "Lt", "Lt": "Gt", "Ge": "Le", "Le": "Ge"}.get(x["op"], x["op"])
+                return "var " + op
+        return "?"
+    got = [(rel(c), effect(b_)) for c, b_ in chain]
+    want = [("var Eq", "go hi"), ("var Gt", "return false"), ("else", "go lo")]
+    if got == want:
+        ctx.ok("shape-contains", name + ":Node", "var == e -> hi; var > e -> false; else -> lo", site=nd["sp"])
+    else:
+        ctx.violation("shape-contains", name + ":Node", "%s walks a node as %s; membership in a ZDD requires %s" % (name, got, want), site=nd["sp"])
+    # the index advances exactly on the hi step
+    adv = [x for x in H.walk(chain[0][1]) if x.get("k") == "assign" and x["op"] == "Add" and H.show(x["r"]) == "1"] if chain else []
+    if len(adv) == 1:
+        ctx.ok("shape-contains", name + ":advance", "the query index advances with the hi step")
+    else:
+        ctx.violation("shape-contains", name + ":advance", "%s: the query index must advance by one exactly when the hi branch is taken" % name, site=nd["sp"])
+
+
 def run(ctx):
+    for fn in COUNT_FNS:
+        ctx.guard("shape-count", lambda fn=fn: analyse_count(ctx, fn))
+    for fn in CONTAINS_FNS:
+        ctx.guard("shape-contains", lambda fn=fn: analyse_contains(ctx, fn))
     for op, fns in FUNCS.items():
         for fn in fns:
             ctx.guard("shape", lambda fn=fn, op=op: analyse_binop(ctx, op, fn))
